@@ -586,13 +586,12 @@ class CheckedCoverageInstrumentation(python3_10.CheckedCoverageInstrumentation):
         # instructions, if they are present, otherwise it may cause issues.
         # (instr_index is a position in the basic block, see
         # BasicBlockNode.instrumentation_original_instructions)
-        assert instr_index > 0, f"An instruction should exist before index {instr_index}"
-        precall_instr = node.basic_block[instr_index - 1]
+        # (a call may be the first instruction of its basic block, e.g. f(a if b else c))
+        precall_instr = node.basic_block[instr_index - 1] if instr_index > 0 else None
         if isinstance(precall_instr, Instr) and precall_instr.name == "PRECALL":
             instr_index -= 1
 
-        assert instr_index > 0, f"An instruction should exist before index {instr_index}"
-        kw_names_instr = node.basic_block[instr_index - 1]
+        kw_names_instr = node.basic_block[instr_index - 1] if instr_index > 0 else None
         if isinstance(kw_names_instr, Instr) and kw_names_instr.name == "KW_NAMES":
             instr_index -= 1
 
